@@ -34,7 +34,7 @@ class FixedFormat_encode(Contract):
     properties = ['C16']
     # the step from "within [neg_maxval, pos_maxval] by alignment" (callee contract) to the integer range of the
     # word does not go through unbounded in reasonable time (> 200 s per path): bounded stand-in, widths/exponents <= 6
-    options = {'split_heavy': True, 'bounded': 6, 'bounded_try_ms': 1500, 'bounded_ms': 30000}
+    options = {'split_heavy': True, 'bounded': 6, 'bounded_try_ms': 1500, 'bounded_ms': 30000, 'symbolic_tier': 'thorough'}   # 450-800 s (1800 s under load): thorough tier only
 
     def post(self, x, result):
         return {
@@ -91,7 +91,7 @@ class SMFixedFormat_encode(Contract):
     returns = 'int'
     properties = ['C16']
     # bounded stand-in (widths/exponents <= 6), same reason as FixedFormat_encode
-    options = {'split_heavy': True, 'bounded': 6, 'bounded_try_ms': 1500, 'bounded_ms': 30000}
+    options = {'split_heavy': True, 'bounded': 6, 'bounded_try_ms': 1500, 'bounded_ms': 30000, 'symbolic_tier': 'thorough'}   # 450-800 s (1800 s under load): thorough tier only
 
     def post(self, x, result):
         return {
